@@ -20,7 +20,9 @@ THEOREMS = [
 RULE = ("as C07, with emphasis on search limits: gamma limits below, at and above the optimum, backjump limits 0..100 and none, several seeds "
         "per circuit; fixed families: greedy warm start with wire cuts vs cheaper gate-cut optimum, several quantum registers; thorough: every circuit on 3 qubits with up to 3 cx gates x width 1..2 x every permitted-cut combination against the "
         "brute force over all 5^g plans; two full subcircuits with a pair across them hit by several gates (both-wires cut optimal); ten-qubit gate-cut-only "
-        "searches of about 13 000 backjumps without a backjump limit against the minimum over qubit partitions (oracle only); compared with the model: flag, overhead (exactly on integer-kappa circuits), cut circuit; distinct by payload")
+        "searches of about 13 000 backjumps without a backjump limit against the minimum over qubit partitions (oracle only); non-integer gamma limits just above "
+        "the optimum with their integer part below it (greedy warm start not optimal); expensive gates (kappa 7) whose gate-cut child exceeds the incumbent "
+        "while a single-wire-cut child does not; compared with the model: flag, overhead (exactly on integer-kappa circuits), cut circuit; distinct by payload")
 ASSUMPTIONS = ["the theorem `optimize_flag_sound` quantifies over the goal states of the model's search tree (per-gate choices that pass the action "
                "guards within the wire budget); that these are, cost-wise, all width-feasible plans of the specification (useless-cut argument) is "
                "validated by the brute force over all 5^g plans of the independent segment model, not proved",
@@ -47,6 +49,10 @@ def cases(rng, tier):
     # two full subcircuits and a qubit pair across them hit by several gates (optimum: both wires cut in front of the first of them);
     # unrestricted searches that need more backjumps than the default limit (oracle only)
     for p in cutfind.family_full_pair() + cutfind.family_long_search():
+        yield ("find_cuts", p)
+    # non-integer gamma limits just above the optimum (integer part below it) on circuits whose greedy warm start is not optimal;
+    # expensive gates (kappa 7 > wire cut 4) whose gate-cut child exceeds the incumbent while a single-wire-cut child does not
+    for p in cutfind.family_fractional_limit() + cutfind.family_child_order():
         yield ("find_cuts", p)
     for _ in range(4 if tier == "quick" else 30):
         yield ("find_cuts", _wire_then_gate(rng))
